@@ -186,6 +186,44 @@ class HashComputer:
             )
         self._hasher.update(bytes)
 
+    def _is_default(self, default, value) -> bool:
+        """Returns true if the value is the default value of an argument
+
+        A configuration is the default iff it is hashed as the default
+        configuration is, i.e. iff it has the same identifier (and not
+        `default == value`, which compares what identifiers ignore and ignores
+        what they contain, e.g. the task that produced the value). Lists and
+        dictionaries are compared item-wise, other values with `==`
+        """
+        if isinstance(default, Config):
+            if not isinstance(value, Config):
+                return False
+            if id(value) in self.config_path.config2index:
+                # The value is being hashed (cycle): this is not the default
+                return False
+            return (
+                HashComputer.compute(
+                    default, version=self.version, config_path=self.config_path
+                ).all
+                == HashComputer.compute(
+                    value, version=self.version, config_path=self.config_path
+                ).all
+            )
+
+        if isinstance(default, list) and isinstance(value, list):
+            value = [el for el in value if not is_ignored(el)]
+            return len(default) == len(value) and all(
+                self._is_default(d, v) for d, v in zip(default, value)
+            )
+
+        if isinstance(default, dict) and isinstance(value, dict):
+            value = {k: v for k, v in value.items() if not is_ignored(v)}
+            return default.keys() == value.keys() and all(
+                self._is_default(d, value[k]) for k, d in default.items()
+            )
+
+        return default == value
+
     def update(self, value, *, myself=False):  # noqa: C901
         """Update the hash
 
@@ -289,7 +327,7 @@ class HashComputer:
                     )
                     or (
                         argument.default is not None
-                        and argument.default == remove_meta(argvalue)
+                        and self._is_default(argument.default, remove_meta(argvalue))
                     )
                 ):
                     # No update if same value (and not constant)
